@@ -210,9 +210,17 @@ def add_recover_task(chk, prog, gl, tasks):
 
 def main():
     chk = Check('C06')
+    tasks = build(chk, os.environ.get('VERIF_ONLY', ''))
+    chk.run_tasks(tasks)
+    chk.discharge()
+    chk.finish()
+
+
+def build(chk, only=''):
+    """append this check's tasks (restricted to the groups named in `only`) to a task list; also used by the checks that
+    depend on this one's contracts (common.include_dependency)"""
     prog = load_prog()
     gl = load_globals(prog)
-    only = os.environ.get('VERIF_ONLY', '')
     chk.summaries.update(models.VALUE_MODEL_SUMMARY)
     chk.summaries.update(SUMMARY)
     chk.assumptions.append('no curve point has y = 0 (x^3 = -7 has no root mod p): sqrt(x^3+7) != 0 whenever it exists')
@@ -323,9 +331,7 @@ def main():
     if not only or 'split' in only:
         tasks.append(('split', t_split))
 
-    chk.run_tasks(tasks)
-    chk.discharge()
-    chk.finish()
+    return tasks
 
 
 if __name__ == '__main__':
